@@ -1,6 +1,5 @@
 /-
-The 2026 decoder and the length probe: error kinds (no panic; abort only for a declared length beyond
-the allocatable bound) and "probe = bytes consumed".
+The 2026 decoder and the length probe: error kinds (no panic, no abort).
 -/
 import ClvmModel.Serde2026
 
@@ -147,12 +146,10 @@ theorem readGroupHeader_le {mal : Nat} {strict : Bool} {inp inp' : Bytes} {lengt
       · rename_i len hl
         cases h; exact checkedBoundedUsize_le hl
 
-/-- errors of the atom-table loop: benign, or the abort, which needs a declared length above
-`allocCap` that passed the `max_atom_len` check -/
-theorem readGroups_err {allocCap mal : Nat} {strict : Bool} :
+/-- errors of the atom-table loop are benign -/
+theorem readGroups_err {mal : Nat} {strict : Bool} :
     ∀ (n : Nat) (inp : Bytes) (ctr : Counters) (atoms : List Bytes) (e : Err),
-    readGroups allocCap mal strict n inp ctr atoms = .error e →
-      DeErr e ∨ ((∃ m, e = .Abort m) ∧ allocCap < mal) := by
+    readGroups mal strict n inp ctr atoms = .error e → DeErr e := by
   intro n
   induction n with
   | zero => intro inp ctr atoms e h; rw [readGroups] at h; cases h
@@ -160,17 +157,12 @@ theorem readGroups_err {allocCap mal : Nat} {strict : Bool} :
     intro inp ctr atoms e h
     rw [readGroups] at h
     split at h
-    · rename_i e' he; cases h; left; rw [readGroupHeader_err he]; exact .ser
-    · rename_i length count inp' hh
-      have hle := readGroupHeader_le hh
-      split at h
-      · cases h; left; exact .ser
+    · rename_i e' he; cases h; rw [readGroupHeader_err he]; exact .ser
+    · split at h
+      · cases h; exact .ser
       · split at h
-        · rename_i hgt
-          cases h; right; exact ⟨⟨_, rfl⟩, by omega⟩
-        · split at h
-          · rename_i e' he; cases h; left; exact readAtoms_err _ _ _ _ _ he
-          · exact ih _ _ _ _ h
+        · rename_i e' he; cases h; exact readAtoms_err _ _ _ _ _ he
+        · exact ih _ _ _ _ h
 
 theorem execInst_err {atoms : List Bytes} {s : DState} {inst : Int} {e : Err}
     (h : execInst atoms s inst = .error e) : DeErr e := by
@@ -234,27 +226,26 @@ theorem runInstructions_err {atoms : List Bytes} {strict : Bool} :
       · rename_i e' he; cases h; exact execInst_err he
       · exact ih _ _ _ h
 
-theorem deserializeBody_err {allocCap : Nat} {ctr : Counters} {inp : Bytes} {mal : Nat} {strict : Bool} {e : Err}
-    (h : deserializeBody allocCap ctr inp mal strict = .error e) :
-    DeErr e ∨ ((∃ m, e = .Abort m) ∧ allocCap < mal) := by
+theorem deserializeBody_err {ctr : Counters} {inp : Bytes} {mal : Nat} {strict : Bool} {e : Err}
+    (h : deserializeBody ctr inp mal strict = .error e) : DeErr e := by
   unfold deserializeBody at h
   split at h
-  · rename_i e' he; cases h; left; rw [readVarint_err he]; exact .ser
+  · rename_i e' he; cases h; rw [readVarint_err he]; exact .ser
   · split at h
-    · rename_i e' he; cases h; left; rw [checkedUsize_err he]; exact .ser
+    · rename_i e' he; cases h; rw [checkedUsize_err he]; exact .ser
     · split at h
       · rename_i e' he; cases h; exact readGroups_err _ _ _ _ _ he
       · split at h
-        · rename_i e' he; cases h; left; rw [readVarint_err he]; exact .ser
+        · rename_i e' he; cases h; rw [readVarint_err he]; exact .ser
         · split at h
-          · rename_i e' he; cases h; left; rw [checkedUsize_err he]; exact .ser
+          · rename_i e' he; cases h; rw [checkedUsize_err he]; exact .ser
           · split at h
-            · cases h; left; exact .ser
+            · cases h; exact .ser
             · split at h
-              · rename_i e' he; cases h; left; exact runInstructions_err _ _ _ _ he
+              · rename_i e' he; cases h; exact runInstructions_err _ _ _ _ he
               · rename_i inp4 s hrun
                 split at h
-                · cases h; left; exact .ser
+                · cases h; exact .ser
                 · rename_i hlen
                   split at h
                   · rename_i hnone
@@ -264,14 +255,13 @@ theorem deserializeBody_err {allocCap : Nat} {ctr : Counters} {inp : Bytes} {mal
                     | cons a st => rw [hs] at hnone; simp at hnone
                   · cases h
 
-theorem deserializeFromStream_err {allocCap : Nat} {ctr : Counters} {inp : Bytes} {mal : Nat} {strict : Bool}
-    {e : Err} (h : deserializeFromStream allocCap ctr inp mal strict = .error e) :
-    DeErr e ∨ ((∃ m, e = .Abort m) ∧ allocCap < mal) := by
+theorem deserializeFromStream_err {ctr : Counters} {inp : Bytes} {mal : Nat} {strict : Bool}
+    {e : Err} (h : deserializeFromStream ctr inp mal strict = .error e) : DeErr e := by
   unfold deserializeFromStream at h
   split at h
-  · cases h; left; exact .ser
+  · cases h; exact .ser
   · split at h
-    · cases h; left; exact .ser
+    · cases h; exact .ser
     · exact deserializeBody_err h
 
 /-! ### the length probe -/
